@@ -143,10 +143,17 @@ RECURSIVE JoinNames(_)
 JoinNames(ns) == IF ns = <<>> THEN "" ELSE Head(ns) \o "," \o JoinNames(Tail(ns))
 PartToks(parts) == [x \in DOMAIN parts |-> Unparse(parts[x])]
 
-EmitCase == res.k = "none" \/
+EmitOnce ==
             PrintT("CASE " \o ToJson([gen |-> "GenCompose",
                                        srcs |-> IF HasInline THEN [composed |-> Unparse(Pre \o Built.prog \o Post), inlined |-> Unparse(Pre \o Built.inline \o Post)]
                                                 ELSE [composed |-> Unparse(Pre \o Built.prog \o Post)],
                                        data |-> DataOf(ct), parts |-> PartToks(WithSub(Built.parts)),
                                        shape |-> comp \o ":" \o ct \o ":" \o JoinNames(names), expect |-> Expect(res)]))
+EmitTwice ==
+            LET twice == Pre \o Built.prog \o <<Text(<<"/">>)>> \o Built.prog \o Post IN
+               PrintT("CASE " \o ToJson([gen |-> "GenCompose", srcs |-> [twice |-> Unparse(twice)],
+                                       data |-> DataOf(ct), parts |-> PartToks(WithSub(Built.parts)),
+                                       shape |-> comp \o ":" \o ct \o ":" \o JoinNames(names) \o ":twice",
+                                       expect |-> Expect(Run(twice, WithHelpers(DataOf(ct)), WithSub(Built.parts), ""))]))
+EmitCase == res.k = "none" \/ (EmitOnce /\ EmitTwice)
 =============================================================================
